@@ -350,3 +350,56 @@ Definition save (c : cfg) (hd : header) (dirty : bool) (old : idata) (rd : rende
 (* number of planes handed to set_data by the code as it is *)
 Definition bands_written_unfixed (hd : header) : option Z :=
   match h_cm hd with CGray => Some 2 | CRgb => Some 4 | _ => None end.
+
+(* ------------------------------------------------------------------ one PSDImage object across several save() calls *)
+(* The state that matters: (_updated_layers, image_data).  A structural edit sets the flag
+   (GroupMixin._update_psd_record); an attribute edit (visible, opacity, offset, name, blend mode)
+   does not touch it; save() never resets it - once the structure was edited every later save()
+   renders the merged image again.  A save() that raises leaves the image data as it was. *)
+Inductive step :=
+| SStruct
+| SAttr
+| SSave (rd : rendered) (transp : bool) (tindex : Z).
+
+Definition step_state (c : cfg) (hd : header) (s : bool * idata) (st : step) : bool * idata :=
+  match st with
+  | SStruct => (true, snd s)
+  | SAttr => s
+  | SSave rd tr ti =>
+      match save c hd (fst s) (snd s) rd tr ti with
+      | Ok d => (fst s, d)
+      | Err _ => s
+      end
+  end.
+
+Fixpoint session (c : cfg) (hd : header) (s : bool * idata) (steps : list step) : list (res idata) :=
+  match steps with
+  | [] => []
+  | SSave rd tr ti :: t =>
+      save c hd (fst s) (snd s) rd tr ti :: session c hd (step_state c hd s (SSave rd tr ti)) t
+  | st :: t => session c hd (step_state c hd s st) t
+  end.
+
+Definition state_after (c : cfg) (hd : header) (s : bool * idata) (steps : list step) : bool * idata :=
+  fold_left (step_state c hd) steps s.
+
+Definition is_struct (st : step) : bool := match st with SStruct => true | _ => false end.
+
+(* the variant with "self._updated_layers = False" after regenerating (NOT the code): kept to state
+   what goes wrong with it *)
+Definition step_state_reset (c : cfg) (hd : header) (s : bool * idata) (st : step) : bool * idata :=
+  match st with
+  | SSave rd tr ti =>
+      match save c hd (fst s) (snd s) rd tr ti with
+      | Ok d => (false, d)
+      | Err _ => s
+      end
+  | _ => step_state c hd s st
+  end.
+Fixpoint session_reset (c : cfg) (hd : header) (s : bool * idata) (steps : list step) : list (res idata) :=
+  match steps with
+  | [] => []
+  | SSave rd tr ti :: t =>
+      save c hd (fst s) (snd s) rd tr ti :: session_reset c hd (step_state_reset c hd s (SSave rd tr ti)) t
+  | st :: t => session_reset c hd (step_state_reset c hd s st) t
+  end.
